@@ -23,3 +23,9 @@ VARIANTS += [
     M('C13', 'refactor-deletions-without-list', E(RX, "            deletions = set(list(sorted(range(len(freqs)),\n                                        key=lambda k: -freqs[k]))[M:])",
                                                   "            ranked = sorted(range(len(freqs)), key=lambda k: -freqs[k])\n            deletions = set(ranked[M:])"), kind='refactor'),
 ]
+
+VARIANTS += [
+    M('C13', 'no-padding-for-the-empty-pattern', E(RX, "        if self.n_stripped > 0:\n            Cats = self.OutCats if output and self.dialect else self.Cats", "        if parts and self.n_stripped > 0:\n            Cats = self.OutCats if output and self.dialect else self.Cats"),
+      rule='C13-WSPAD', key='vrle2re'),
+    M('C13', 'refactor-padding-test-truthiness', E(RX, "        if self.n_stripped > 0:\n            Cats = self.OutCats if output and self.dialect else self.Cats", "        if self.n_stripped:\n            Cats = self.OutCats if output and self.dialect else self.Cats"), kind='refactor'),
+]
